@@ -405,37 +405,66 @@ def r02_5(chk, facts):
         chk.analysed(fn)
         g = C.CFG(fn['body'])
         loop_pushes = []
-        loop_body = None
+        loop_body = None; loop = None
         for x in A.walk_no_lambda(fn['body']):
-            if x.get('k') == 'ForStmt':
-                loop_body = x.get('body')
+            if x.get('k') in ('ForStmt', 'WhileStmt', 'CXXForRangeStmt') and any(c.get('k') == 'CXXMemberCallExpr' and A.callee_name(c) == 'emplace_back' for c in A.walk_no_lambda(x.get('body'))):
+                loop = x; loop_body = x.get('body')
                 loop_pushes = [c for c in A.walk_no_lambda(x.get('body')) if c.get('k') == 'CXXMemberCallExpr' and A.callee_name(c) == 'emplace_back']
         site = U.site(fn, 'dedupe loop')
         bad = None
         if not loop_pushes: bad = 'no emplace_back inside the de-duplication loop'
+        # a trailing variable: assigned exactly once in the loop, by the last top-level statement of the body, from the current element
+        def trailing_vars():
+            out = set()
+            top = (loop_body.get('c') or []) if loop_body is not None and loop_body.get('k') == 'CompoundStmt' else []
+            if not top: return out
+            last = A.strip(top[-1])
+            if last is None or last.get('k') != 'BinaryOperator' or last.get('op') != '=': return out
+            v = A.strip(last.get('lhs'), casts=True)
+            if v is None or v.get('k') != 'DeclRefExpr': return out
+            nass = sum(1 for y in A.walk_no_lambda(loop_body) if y.get('k') == 'BinaryOperator' and y.get('op') == '=' and
+                       (A.strip(y.get('lhs'), casts=True) or {}).get('id') == v.get('id'))
+            if nass == 1: out.add(v.get('id'))
+            return out
+        trail = trailing_vars() if loop_body is not None else set()
+        def offsets(e, depth=0):
+            out = []
+            for y in A.walk(e):
+                if y.get('k') == 'BinaryOperator' and y.get('op') in ('-', '+') and A.const(y.get('rhs')) == 1: out.append(y['op'])
+                if y.get('k') == 'DeclRefExpr' and depth < 2:
+                    d = next((v for v in A.walk_no_lambda(loop_body) if v.get('k') == 'VarDecl' and v.get('id') == y.get('id') and v.get('init') is not None), None)
+                    if d is not None: out += offsets(d['init'], depth + 1)
+            return out
+        def base_ids(e): return set(y.get('id') for y in A.walk(e) if y.get('k') == 'DeclRefExpr')
+        # edges through which an element may be kept: `name != predecessor's name` holds, or there is no predecessor (first element)
+        passes = []
+        for m in g.rpo:
+            if m.kind != 'cond': continue
+            s0 = A.strip(m.ast, casts=True)
+            if s0 is None: continue
+            op = s0.get('oop') if s0.get('k') == 'CXXOperatorCallExpr' else (s0.get('op') if s0.get('k') == 'BinaryOperator' else None)
+            if op not in ('!=', '=='): continue
+            sides = (s0.get('args') or [s0.get('lhs'), s0.get('rhs')])[:2]
+            names = [A.strip(x, casts=True) for x in sides]
+            if len(names) != 2 or any(x is None for x in names): continue
+            if all(x.get('k') == 'MemberExpr' and x.get('n') == 'name' for x in names):
+                # the two elements compared: one is the predecessor of the other (an offset of one, directly or through a local
+                # alias; or the trailing variable against the current element)
+                o1, o2 = offsets(names[0].get('base')), offsets(names[1].get('base'))
+                b1, b2 = base_ids(names[0].get('base')), base_ids(names[1].get('base'))
+                pred_pair = sorted(o1 + o2) == ['-'] or (not (o1 + o2) and (bool(b1 & trail) != bool(b2 & trail)))
+                if pred_pair:
+                    passes += [e for e in m.succ if e.kind == 'edge' and e.label is (op == '!=')]
+            else:
+                # `prev == nullptr`: no predecessor yet
+                for x, y in ((names[0], names[1]), (names[1], names[0])):
+                    if x.get('k') == 'DeclRefExpr' and x.get('id') in trail and (y.get('k') in ('CXXNullPtrLiteralExpr', 'GNUNullExpr') or A.const(y) == 0):
+                        passes += [e for e in m.succ if e.kind == 'edge' and e.label is (op == '==')]
+        reach = g.reachable_from(g.entry, avoid=passes)
         for c in loop_pushes:
             n_ = g.node_of(c)
-            ok = False
-            for cond_ast, label, edge in (g.guards(n_) if n_ else []):
-                s0 = A.strip(cond_ast, casts=True)
-                if s0 is None: continue
-                op = s0.get('oop') if s0.get('k') == 'CXXOperatorCallExpr' else (s0.get('op') if s0.get('k') == 'BinaryOperator' else None)
-                if op not in ('!=', '=='): continue
-                sides = (s0.get('args') or [s0.get('lhs'), s0.get('rhs')])[:2]
-                names = [A.strip(x, casts=True) for x in sides]
-                if len(names) != 2 or not all(x is not None and x.get('k') == 'MemberExpr' and x.get('n') == 'name' for x in names): continue
-                # the two elements compared: one is the predecessor of the other (an offset of one, directly or through a local alias)
-                def offsets(e, depth=0):
-                    out = []
-                    for y in A.walk(e):
-                        if y.get('k') == 'BinaryOperator' and y.get('op') in ('-', '+') and A.const(y.get('rhs')) == 1: out.append(y['op'])
-                        if y.get('k') == 'DeclRefExpr' and depth < 2:
-                            d = next((v for v in A.walk_no_lambda(loop_body) if v.get('k') == 'VarDecl' and v.get('id') == y.get('id') and v.get('init') is not None), None)
-                            if d is not None: out += offsets(d['init'], depth + 1)
-                    return out
-                o1, o2 = offsets(names[0].get('base')), offsets(names[1].get('base'))
-                if sorted(o1 + o2) == ['-'] and (op == '!=') == bool(label): ok = True
-            if not ok: bad = 'emplace_back in the loop is not under a comparison `name != name of the preceding element`'
+            if n_ is None or n_.id in reach or not passes:
+                bad = 'emplace_back in the loop is not under a comparison `name != name of the preceding element`'
         if bad: chk.fail('R02.5', site, fn['file'], fn['l'], bad, None, fn['q'])
         else: chk.ok('R02.5', site, {'function': fn['q'], 'guard': 'name != predecessor name'})
 
@@ -447,13 +476,35 @@ def r02_7(chk, facts, rid='R02.7'):
     chk.require(fns, 'unicode_traits::is_legal_utf8 not found')
     fn = fns[0]
     chk.analysed(fn)
+    # the switch on the lead byte nested in the switch on the length, whatever the lead byte is written as (*it, bytes[0]); the second
+    # byte is the local variable its cases compare
     inner = None; byte_id = None
     for x in A.walk(fn['body']):
         if x.get('k') == 'SwitchStmt':
-            c = A.strip(x.get('cond'), casts=True)
-            if c is not None and c.get('k') == 'UnaryOperator' and c.get('op') == '*' and A.ref_name(c.get('sub')) == 'it': inner = x
-        if x.get('k') == 'VarDecl' and x.get('n') == 'byte': byte_id = x.get('id')
-    chk.require(inner is not None and byte_id is not None, 'is_legal_utf8: inner switch over *it / local `byte` not found')
+            for y in A.walk(x.get('body')):
+                if y.get('k') == 'SwitchStmt' and y is not x: inner = y
+    def lead_keys(e):
+        c = A.strip(e, casts=True)
+        if c is None: return []
+        if c.get('k') == 'UnaryOperator' and c.get('op') == '*' and A.ref_name(c.get('sub')): return [('deref', A.ref_name(c.get('sub')))]
+        if c.get('k') == 'ArraySubscriptExpr':
+            cc = c.get('c') or []
+            if len(cc) == 2 and A.ref_name(cc[0]) and A.const(cc[1]) == 0: return [('elem', A.ref_name(cc[0]), 0), ('deref', A.ref_name(cc[0]))]
+        return []
+    lkeys = lead_keys(inner.get('cond')) if inner is not None else []
+    if inner is not None:
+        cnt = {}
+        for y in A.walk(inner.get('body')):
+            if y.get('k') == 'DeclRefExpr' and y.get('dk') == 'Var': cnt[y.get('id')] = cnt.get(y.get('id'), 0) + 1
+        if cnt: byte_id = max(cnt, key=lambda k_: cnt[k_])
+    chk.require(inner is not None and byte_id is not None and lkeys, 'is_legal_utf8: switch over the lead byte nested in the switch over the length not found')
+    # every name the lead byte may be read through: the parameter and local pointers initialised from it
+    ptrs = [p_['n'] for p_ in fn['params'] if '*' in F.tname(fn, p_['t'])] + [v.get('n') for v in A.walk(fn['body']) if v.get('k') == 'VarDecl' and '*' in F.tname(fn, v.get('t'))]
+    def lead_env(lead):
+        env = {}
+        for nme in ptrs: env[('deref', nme)] = lead; env[('elem', nme, 0)] = lead
+        for k_ in lkeys: env[k_] = lead
+        return env
     def window(lead):
         if lead == 0xE0: return (0xA0, 0xBF)
         if lead == 0xED: return (0x80, 0x9F)
@@ -467,7 +518,7 @@ def r02_7(chk, facts, rid='R02.7'):
         for b1 in probes:
             if not (0x80 <= b1 <= 0xBF): continue      # the continuation mask test precedes the window test
             pe = P.PEval(facts, fn, max_depth=1)
-            env = {('deref', 'it'): lead, byte_id: b1}
+            env = dict(lead_env(lead)); env[byte_id] = b1
             r = pe.exec_stmt(inner, env, (), 0)
             rejected = any(e.kind == 'return' and not e.guards for e in pe.effects)
             want = not (lo <= b1 <= hi)
@@ -475,7 +526,7 @@ def r02_7(chk, facts, rid='R02.7'):
                 bad = (b1, rejected, want); break
         # lead byte legality (length 1 path + tail)
         pe = P.PEval(facts, fn, max_depth=1, bind={'length': 1})
-        pe.exec_body(fn, {('deref', 'it'): lead})
+        pe.exec_body(fn, lead_env(lead))
         rets = [e for e in pe.effects if e.kind == 'return' and not e.guards]
         illegal = bool(rets) and rets[0].extra.get('value') not in (0, None) or (bool(rets) and rets[0].extra.get('value') is None and 'source_illegal' in str(rets[0].args))
         lead_ok = rets and (rets[0].extra.get('value') == 0) == (not ((0x80 <= lead < 0xC2) or lead > 0xF4))
